@@ -304,6 +304,9 @@ func visitInstr(fr *frame, instr ssa.Instruction) continuation {
 
 	case *ssa.IndexAddr:
 		x := fr.get(instr.X)
+		if ab, ok := x.(*absBytes); ok {
+			x = p.materialize(fr, ab)
+		}
 		switch x := x.(type) {
 		case []value:
 			idx := fr.index(fr.get(instr.Index), len(x))
@@ -474,10 +477,10 @@ func callSSA(i *interpreter, caller *frame, callpos token.Pos, fn *ssa.Function,
 				return r
 			}
 		}
-		if p.summ[name] {
-			if ext := optSummaries[name]; ext != nil {
+		if ext := optSummaries[name]; ext != nil && (p.summ[name] || p.summ["ideal-paillier"]) {
+			if r := ext(fr, args); r != (declined{}) {
 				p.res.Intrinsics["summary:"+name]++
-				return ext(fr, args)
+				return r
 			}
 		}
 	}
